@@ -1,7 +1,7 @@
 """Per-property configuration of ./check (which theorems, suites, oracle, budgets)."""
 
 # model .vo files the extracted driver depends on (built before extraction)
-MODEL_VO = ["Base.vo", "GoOps.vo", "Gen/Tables.vo", "Gen/Preds.vo", "Token.vo", "VLQ.vo", "SourceMap.vo", "Lexer.vo", "Tree.vo", "Writer.vo", "PrinterLib.vo", "Gen/Printer.vo", "Compile.vo", "Parser.vo", "Registry.vo", "Grammar.vo", "GrammarLax.vo", "PrintSpec.vo", "CommentSpec.vo", "RelexSpec.vo", "TokenSpec.vo"]
+MODEL_VO = ["Base.vo", "GoOps.vo", "Gen/Tables.vo", "Gen/Preds.vo", "Token.vo", "VLQ.vo", "SourceMap.vo", "Lexer.vo", "Tree.vo", "Writer.vo", "PrinterLib.vo", "Gen/Printer.vo", "Compile.vo", "Parser.vo", "Registry.vo", "Grammar.vo", "GrammarLax.vo", "PrintSpec.vo", "CommentSpec.vo", "RelexSpec.vo", "TokenSpec.vo", "SegSpec.vo"]
 
 # projections: properties that do not speak about positions compare tokens and errors without them
 POS_FREE = [(r"(\{\d+:[0-9a-f-]*):-?\d+:-?\d+:-?\d+:-?\d+:", r"\1:"),     # tokens inside trees / token streams
@@ -271,8 +271,8 @@ def _c04_seq(pcfg):
         for pre, kind in (("si:", "s"), ("ei:", "e"), ("ti:", "t")):
             if it.startswith(pre):
                 for x in it[len(pre):].split(","):
-                    if x and not x.startswith("g"):
-                        seq.append(kind + x)
+                    if x and not x.startswith("g") and not x.startswith("n"):
+                        seq.append(kind + ("q" + x[1:] if x.startswith("s") else x))
     return ",".join(seq[:8]) or "-"
 
 
